@@ -481,4 +481,57 @@ than the widths in both directions → passes both stages and enters `P`. -/
 example : auerPareto 0 (fun i => if i = 0 then [0, 0] else if i = 1 then [1, 1] else [10, -10])
     (fun _ => [1, 1]) [0, 1, 2] [] = ([0, 1], [2]) := by decide +kernel
 
+/-! ## State invariants (the hypotheses `S.Nodup`, `S ∩ P = ∅` used above hold in every round) -/
+
+/-- **PaVeBa family**: if `S`, `P` are sets with `S ∩ P = ∅`, then after a whole round the new
+`S`, `P` are again disjoint sets, `S' ⊆ S`, and `U' ⊆ P'`. -/
+theorem paveba_round_invariant (isDom isCov : Rel) {S P : List Nat} (U : List Nat) (hS : S.Nodup)
+    (hP : P.Nodup) (hSP : ∀ x ∈ S, x ∉ P) :
+    (pavebaRound isDom isCov S P U).1.Nodup ∧ (pavebaRound isDom isCov S P U).2.1.Nodup ∧
+    (pavebaRound isDom isCov S P U).1.Sublist S ∧
+    (∀ x ∈ (pavebaRound isDom isCov S P U).1, x ∉ (pavebaRound isDom isCov S P U).2.1) ∧
+    (pavebaRound isDom isCov S P U).2.2.Sublist (pavebaRound isDom isCov S P U).2.1 := by
+  have hS1 : (pavebaDiscard isDom S U).Nodup := nodup_removeAll _ hS
+  have hsub1 : (pavebaDiscard isDom S U).Sublist S := removeAll_sublist _ _
+  simp only [pavebaRound, pavebaPareto]
+  refine ⟨nodup_removeAll _ hS1, nodup_addAll _ hP, (removeAll_sublist _ _).trans hsub1, ?_,
+    List.filter_sublist⟩
+  intro x hx hx'
+  rw [mem_removeAll _ hS1] at hx
+  rcases (mem_addAll _ _).mp hx' with h | h
+  · exact hSP x (hsub1.subset hx.1) h
+  · exact hx.2 h
+
+/-- **VOGP / ε-PAL**: the same invariant for discarding + ε-covering. -/
+theorem vogp_round_invariant (isDom isCov pessDom : Rel) {S P : List Nat} (hS : S.Nodup)
+    (hP : P.Nodup) (hSP : ∀ x ∈ S, x ∉ P) :
+    (vogpRound isDom isCov pessDom S P).1.Nodup ∧ (vogpRound isDom isCov pessDom S P).2.Nodup ∧
+    (vogpRound isDom isCov pessDom S P).1.Sublist S ∧
+    (∀ x ∈ (vogpRound isDom isCov pessDom S P).1, x ∉ (vogpRound isDom isCov pessDom S P).2) := by
+  have hS1 : (vogpDiscard isDom pessDom S P).Nodup := nodup_removeAll _ hS
+  have hsub1 : (vogpDiscard isDom pessDom S P).Sublist S := removeAll_sublist _ _
+  simp only [vogpRound, epsilonCovering]
+  refine ⟨nodup_removeAll _ hS1, nodup_addAll _ hP, (removeAll_sublist _ _).trans hsub1, ?_⟩
+  intro x hx hx'
+  rw [mem_removeAll _ hS1] at hx
+  rcases (mem_addAll _ _).mp hx' with h | h
+  · exact hSP x (hsub1.subset hx.1) h
+  · exact hx.2 h
+
+/-- **Auer** (own widths): the same invariant for discarding + pareto_updating. -/
+theorem auer_round_invariant (eps : Rat) (centre width : Nat → Vec) {S P : List Nat}
+    (hS : S.Nodup) (hP : P.Nodup) (hSP : ∀ x ∈ S, x ∉ P) :
+    (auerRound eps centre width S P).1.Nodup ∧ (auerRound eps centre width S P).2.Nodup ∧
+    (auerRound eps centre width S P).1.Sublist S ∧
+    (∀ x ∈ (auerRound eps centre width S P).1, x ∉ (auerRound eps centre width S P).2) := by
+  have hS1 : (auerDiscard centre width S).Nodup := nodup_removeAll _ hS
+  have hsub1 : (auerDiscard centre width S).Sublist S := removeAll_sublist _ _
+  simp only [auerRound, auerPareto]
+  refine ⟨nodup_removeAll _ hS1, nodup_addAll _ hP, (removeAll_sublist _ _).trans hsub1, ?_⟩
+  intro x hx hx'
+  rw [mem_removeAll _ hS1] at hx
+  rcases (mem_addAll _ _).mp hx' with h | h
+  · exact hSP x (hsub1.subset hx.1) h
+  · exact hx.2 h
+
 end VOPy.C03
